@@ -484,8 +484,38 @@ fn check_eval<T: Queryable + JsonPath>(
             }
         }
     }
+    if has("feedback") && repr == "Value" {
+        // C09: every path a query returns can be fed back to `reference` and yields that very node
+        *stats.entry("feedback".into()).or_default() += 1;
+        for o in obs.iter() {
+            let Some(loc) = &o.loc else { continue };
+            let want = verif_harness::addr::lookup(doc, loc).map(|v| v as *const T);
+            let got = guarded(|| doc.reference(o.path.clone()).map(|v| v as *const T));
+            if got.as_ref().ok() != Some(&want) {
+                let mut m = base(case, &q, docj, "feedback", repr);
+                m["op"] = json!("feedback");
+                m["node_loc"] = json!(loc);
+                m["actual_path"] = json!(o.path);
+                m["what"] = json!(match got { Ok(None) => "a path reported by a query is not resolved by reference (None)".to_string(), Ok(Some(_)) => "a path reported by a query resolves to a different node".to_string(), Err(p) => format!("panic in reference: {p}") });
+                out.mismatch(m);
+                break;
+            }
+        }
+    }
     if has("prog") {
         // the same abstract query BUILT PROGRAMMATICALLY (no parser) and evaluated with js_path_process
+        if let (Some(a), None) = (case.ast.as_ref(), case.ast.as_ref().and_then(|a| verif_harness::ast::jpquery(a))) {
+            // names that have no unambiguous bare form (quotes, backslashes): built with the raw name anyway; C08 only
+            // demands that evaluating a programmatically built query returns (the watchdog sees a hang, guarded a panic)
+            if let Some(jq) = verif_harness::ast::jpquery_lenient(a) {
+                *stats.entry("prog_lenient".into()).or_default() += 1;
+                if let Err(p) = guarded(|| js_path_process(&jq, doc).map(|rs| rs.len()).map_err(|e| e.to_string())) {
+                    let mut m = base(case, &q, docj, "prog", repr);
+                    m["what"] = json!(format!("panic while evaluating a programmatically built query: {p}"));
+                    out.mismatch(m);
+                }
+            }
+        }
         if let Some(jq) = case.ast.as_ref().and_then(|a| verif_harness::ast::jpquery(a)) {
             *stats.entry("prog".into()).or_default() += 1;
             let r = guarded(|| js_path_process(&jq, doc).map(|rs| rs.into_iter().map(|r| am.loc_of(r.clone().val()).cloned()).collect::<Vec<_>>()).map_err(|e| e.to_string()));
